@@ -82,6 +82,25 @@ theorem parse_accepting (d : EnumDef) (hphf : d.usePhf = false) (p : FromStrImpl
     have := hno s v hv w hw ha haw
     subst this; rfl
 
+/-- **Accepting direction, pointwise.**  No global non-overlap is needed: if `v` is the ONLY candidate that accepts this
+    particular input, the parser yields `v` (enums in which two variants share a spelling are still decided on every
+    input that only one of them accepts). -/
+theorem parse_accepting_at (d : EnumDef) (hphf : d.usePhf = false) (p : FromStrImpl)
+    (hg : genFromStr d = .ok p) (s : Bytes) (v : Variant)
+    (hv : v ∈ d.candidates) (ha : accepts d v s = true)
+    (hu : ∀ w ∈ d.candidates, accepts d w s = true → w = v) :
+    parse d s = .ok (.ok v.ident (payloadOf v)) := by
+  rw [parse_first_match d hphf p hg s]
+  cases hc : d.candidates.find? (fun v => accepts d v s) with
+  | none =>
+    have := List.find?_eq_none.1 hc v hv
+    simp [ha] at this
+  | some w =>
+    have hw := List.mem_of_find?_eq_some hc
+    have haw : accepts d w s = true := by simpa using List.find?_some hc
+    have := hu w hw haw
+    subst this; rfl
+
 /-- **Rejecting direction.**  An input that is no candidate's spelling goes to the fall-through:
     the `default` variant capturing the input, or the error. -/
 theorem parse_other (d : EnumDef) (hphf : d.usePhf = false) (p : FromStrImpl)
